@@ -268,51 +268,56 @@ def run_case(case):
             else:
                 u1 = abs(getattr(sim0.particles[vi], 'm')) if k1 == 'm' else (sysd['planets'][vi - 1]['a'] if (k1 == 'a' and vi <= npl) else (sysd['testparticles'][0]['a'] if k1 == 'a' else 1.0))
             pf = max(1.0, 1.5 * 2 * math.pi * abs(T) / P / 10.0)     # a relative step h shifts the orbital phase by ~1.5 n T h: keep that small
-            if order == 1:
-                h = 1e-4 * u1 / math.sqrt(pf)
-                if k1 == 'm':
-                    h = min(1e-6, abs(sim0.particles[vi].m) / 4)      # mass enters through G (M + m): step on the scale of the star, not of the planet
-                res = {}
-                for s in (2, 1, -1, -2):
-                    sm, _v = build(delta1=s * h)
-                    res[s] = run(sm)
-                want = [[(-res[2][i][c] + 8 * res[1][i][c] - 8 * res[-1][i][c] + res[-2][i][c]) / (12 * h) for c in range(6)] for i in range(nreal)]
-                counters['evolution_first'] += 1
-                tol = 3e-6
-            else:
-                u2 = u1
-                if k2 != k1:
-                    if cart:
-                        a_ = sysd['planets'][vi - 1]['a']
-                        u2 = abs(sim0.particles[vi].m) if k2 == 'm' else (a_ if k2 in ('x', 'y', 'z') else math.sqrt(G / a_))
-                    else:
-                        u2 = abs(sim0.particles[vi].m) if k2 == 'm' else (sysd['planets'][vi - 1]['a'] if k2 == 'a' else 1.0)
-                h1, h2 = 2e-3 * u1 / pf, 2e-3 * u2 / pf
-                # the trajectory depends on a mass through G (M + m): the natural scale of a mass step is the stellar mass, not the (tiny) planet mass
-                mnow = abs(sim0.particles[vi].m)
-                if k1 == 'm':
-                    h1 = min(2e-6 / pf * 10, mnow / 4)
-                if k2 == 'm':
-                    h2 = min(2e-6 / pf * 10, mnow / 4)
-                if k1 == k2:
+            try:
+                if order == 1:
+                    h = 1e-4 * u1 / math.sqrt(pf)
+                    if k1 == 'm':
+                        h = min(1e-6, abs(sim0.particles[vi].m) / 4)      # mass enters through G (M + m): step on the scale of the star, not of the planet
                     res = {}
-                    for s in (2, 1, 0, -1, -2):
-                        sm, _v = build(delta1=s * h1)
+                    for s in (2, 1, -1, -2):
+                        sm, _v = build(delta1=s * h)
                         res[s] = run(sm)
-                    want = [[(-res[2][i][c] + 16 * res[1][i][c] - 30 * res[0][i][c] + 16 * res[-1][i][c] - res[-2][i][c]) / (12 * h1 * h1) for c in range(6)] for i in range(nreal)]
+                    want = [[(-res[2][i][c] + 8 * res[1][i][c] - 8 * res[-1][i][c] + res[-2][i][c]) / (12 * h) for c in range(6)] for i in range(nreal)]
+                    counters['evolution_first'] += 1
+                    tol = 3e-6
                 else:
-                    w = {2: -1.0, 1: 8.0, -1: -8.0, -2: 1.0}
-                    acc = [[0.0] * 6 for _i in range(nreal)]
-                    for s1, w1 in w.items():
-                        for s2, w2 in w.items():
-                            sm, _v = build(delta1=s1 * h1, delta2=s2 * h2)
-                            rs = run(sm)
-                            for i in range(nreal):
-                                for c in range(6):
-                                    acc[i][c] += w1 * w2 * rs[i][c]
-                    want = [[acc[i][c] / (144 * h1 * h2) for c in range(6)] for i in range(nreal)]
-                counters['evolution_second'] += 1
-                tol = 2e-3 if 'm' not in (k1, k2) else 2e-2
+                    u2 = u1
+                    if k2 != k1:
+                        if cart:
+                            a_ = sysd['planets'][vi - 1]['a']
+                            u2 = abs(sim0.particles[vi].m) if k2 == 'm' else (a_ if k2 in ('x', 'y', 'z') else math.sqrt(G / a_))
+                        else:
+                            u2 = abs(sim0.particles[vi].m) if k2 == 'm' else (sysd['planets'][vi - 1]['a'] if k2 == 'a' else 1.0)
+                    h1, h2 = 2e-3 * u1 / pf, 2e-3 * u2 / pf
+                    # the trajectory depends on a mass through G (M + m): the natural scale of a mass step is the stellar mass, not the (tiny) planet mass
+                    mnow = abs(sim0.particles[vi].m)
+                    if k1 == 'm':
+                        h1 = min(2e-6 / pf * 10, mnow / 4)
+                    if k2 == 'm':
+                        h2 = min(2e-6 / pf * 10, mnow / 4)
+                    if k1 == k2:
+                        res = {}
+                        for s in (2, 1, 0, -1, -2):
+                            sm, _v = build(delta1=s * h1)
+                            res[s] = run(sm)
+                        want = [[(-res[2][i][c] + 16 * res[1][i][c] - 30 * res[0][i][c] + 16 * res[-1][i][c] - res[-2][i][c]) / (12 * h1 * h1) for c in range(6)] for i in range(nreal)]
+                    else:
+                        w = {2: -1.0, 1: 8.0, -1: -8.0, -2: 1.0}
+                        acc = [[0.0] * 6 for _i in range(nreal)]
+                        for s1, w1 in w.items():
+                            for s2, w2 in w.items():
+                                sm, _v = build(delta1=s1 * h1, delta2=s2 * h2)
+                                rs = run(sm)
+                                for i in range(nreal):
+                                    for c in range(6):
+                                        acc[i][c] += w1 * w2 * rs[i][c]
+                        want = [[acc[i][c] / (144 * h1 * h2) for c in range(6)] for i in range(nreal)]
+                    counters['evolution_second'] += 1
+                    tol = 2e-3 if 'm' not in (k1, k2) else 2e-2
+            except ValueError as e_:
+                # a shadow element set left the domain (e - 2h < 0 for a nearly circular orbit): no finite difference to compare with
+                counters['evolution_fd_outside_domain'] = counters.get('evolution_fd_outside_domain', 0) + 1
+                continue
             # compare: relative to the size of the derivative field (positions and velocities separately)
             idxs = [i for i in range(nreal) if got[i] is not None]
             for lo, hi, nm in ((0, 3, 'position'), (3, 6, 'velocity')):
@@ -385,16 +390,83 @@ def run_case(case):
             sim.dt = P / (20.3 if integ != 'leapfrog' else 60.0)
             sim.init_megno(seed=rr.randrange(1, 1000))
             norb = {'whfast': 3000, 'ias15': 400, 'leapfrog': 600}[integ] * (3 if case['tier'] == 'thorough' else 1)
-            sim.integrate(norb * P, exact_finish_time=0)
+            # independent MEGNO: the same definition (Cincotta & Simo: Y = (2/t) int t dln|delta|, <Y> = (1/t) int Y dt, phase-space
+            # norm with unit weights) evaluated on the finite difference of a shadow simulation displaced by h x the initial
+            # variational vector.  No assumption that the orbit is regular: the two numbers must agree whatever the dynamics.
+            nre = sim.N_real
+            hfd = 1e-9
+            v0 = [[getattr(sim.particles[nre + i], c_) for c_ in ('x', 'y', 'z', 'vx', 'vy', 'vz')] for i in range(nre)]
+            sh = rebound.Simulation()
+            gen.add_system(sh, sysd)
+            sh.integrator = integ
+            sh.dt = sim.dt
+            for i in range(nre):
+                for j_, c_ in enumerate(('x', 'y', 'z', 'vx', 'vy', 'vz')):
+                    setattr(sh.particles[i], c_, getattr(sh.particles[i], c_) + hfd * v0[i][j_])
+            nsamp = norb * 20
+            dts = sim.dt
+            Ys = Yss = 0.0
+            Lprev = 0.0          # ln|delta(0)| = ln 1 (the initial variational vector is normalised per particle... measured below)
+            tprev = 0.0
+            mean_t = mean_Y = cov = var = 0.0
+            first = True
+            maxd = 0.0
+            for k_ in range(nsamp):
+                if integ == 'ias15':
+                    tk = (k_ + 1) * dts
+                    sim.integrate(tk, exact_finish_time=1)
+                    sh.integrate(tk, exact_finish_time=1)
+                else:
+                    sim.steps(1)
+                    sh.steps(1)
+                d2 = 0.0
+                for i in range(nre):
+                    p, q = sim.particles[i], sh.particles[i]
+                    d2 += (q.x - p.x) ** 2 + (q.y - p.y) ** 2 + (q.z - p.z) ** 2 + (q.vx - p.vx) ** 2 + (q.vy - p.vy) ** 2 + (q.vz - p.vz) ** 2
+                L = 0.5 * math.log(d2 / hfd ** 2)
+                if first:
+                    # |delta(0)|^2 = number of particles (each particle's vector is normalised to 1)
+                    Lprev = 0.5 * math.log(float(nre))
+                    first = False
+                tnow = sim.t
+                Ys += 2.0 * 0.5 * (tnow + tprev) * (L - Lprev)
+                Yss += (Ys / tnow) * (tnow - tprev)
+                maxd = max(maxd, math.sqrt(d2))
+                n_ = k_ + 1
+                Ymean = Yss / tnow
+                dt_ = tnow - mean_t
+                mean_t += dt_ / n_
+                dY_ = Ymean - mean_Y
+                mean_Y += dY_ / n_
+                cov += (n_ - 1.0) / n_ * (tnow - mean_t) * (Ymean - mean_Y)
+                var += (n_ - 1.0) / n_ * (tnow - mean_t) ** 2
+                Lprev, tprev = L, tnow
             Y, ly = sim.megno(), sim.lyapunov()
+            Yfd = Yss / sim.t
+            lyfd = cov / var if var else 0.0
             counters['megno_runs'] += 1
-            key = 'max_megno_dev_x1000:%s' % integ
-            counters[key] = max(counters.get(key, 0), int(abs(Y - 2) * 1000))
-            # one planet: pure Kepler problem in the tangent space, MEGNO converges like 1/t; several planets: secular oscillations of a few tenths persist for 1e4+ orbits
-            if not abs(Y - 2.0) < (0.1 if len(sysd['planets']) == 1 else 0.8):
-                add('megno:not-2-on-regular-orbit:%s' % integ, '%s %d inner orbits, planets %r: MEGNO %r' % (integ, norb, [(round(p['a'], 3), p['m']) for p in sysd['planets']], Y))
-            if not abs(ly) * norb * P < 40.0:
-                add('megno:lyapunov-not-small:%s' % integ, '%s %d inner orbits: lyapunov %r (x T = %.2f)' % (integ, norb, ly, abs(ly) * norb * P))
+            if maxd > 1e-3:
+                counters['megno_fd_left_linear_regime'] = counters.get('megno_fd_left_linear_regime', 0) + 1      # ambiguous: the shadow is no longer infinitesimally close
+            else:
+                key = 'max_megno_minus_fd_x1000:%s' % integ
+                counters[key] = max(counters.get(key, 0), int(abs(Y - Yfd) * 1000))
+                key = 'max_lyap_minus_fd_xT_x1000:%s' % integ
+                counters[key] = max(counters.get(key, 0), int(abs(ly - lyfd) * sim.t * 1000))
+                if not abs(Y - Yfd) < 0.02 + 0.01 * abs(Yfd):
+                    add('megno:differs-from-finite-difference-megno:%s' % integ, '%s %d inner orbits, planets %r: MEGNO %r, from the shadow trajectory %r' % (integ, norb, [(round(p['a'], 3), p['m']) for p in sysd['planets']], Y, Yfd))
+                if not abs(ly - lyfd) * sim.t < 0.6 + 0.05 * abs(lyfd) * sim.t:
+                    add('megno:lyapunov-differs-from-finite-difference:%s' % integ, '%s %d inner orbits: lyapunov %r, from the shadow trajectory %r (x T: %.3f vs %.3f)' % (integ, norb, ly, lyfd, ly * sim.t, lyfd * sim.t))
+                if abs(Yfd - 2.0) < 0.5:
+                    counters['megno_regular_by_fd'] = counters.get('megno_regular_by_fd', 0) + 1
+                    key = 'max_megno_dev_x1000:%s' % integ
+                    counters[key] = max(counters.get(key, 0), int(abs(Y - 2) * 1000))
+                    # regular by the independent measure: the advertised limit 2 (and Lyapunov -> 0) must be visible
+                    if not abs(Y - 2.0) < 0.6:
+                        add('megno:not-2-on-regular-orbit:%s' % integ, '%s %d inner orbits: MEGNO %r although the shadow-trajectory MEGNO is %r' % (integ, norb, Y, Yfd))
+                    if not abs(ly) * sim.t < 40.0:
+                        add('megno:lyapunov-not-small:%s' % integ, '%s %d inner orbits: lyapunov %r (x T = %.2f)' % (integ, norb, ly, abs(ly) * sim.t))
+                else:
+                    counters['megno_not_regular_by_fd'] = counters.get('megno_not_regular_by_fd', 0) + 1
             cells.add(json.dumps(['megno', integ, len(sysd['planets'])]))
     for v in viol:
         v['case_seed'] = case['seed']
